@@ -11,50 +11,52 @@ use vh_lite::{read_cases, drive, drive_group, quiet_panics, Out};
 mod tc_right__pari;
 mod tc_left__run;
 mod tc_left__redecl;
-mod tc_left__str;
-mod tc_nonlin__perm1;
-mod mutual__par;
-mod mutual__src1;
-mod mutual__perm1;
-mod scc_chain__par;
-mod scc_chain__str;
-mod consts__pari;
-mod repeated__str;
-mod three_dyn__perm1;
-mod four_dyn__par;
-mod conds__src0;
-mod conds__srcpar;
-mod count_up__ser;
-mod multi_head__to;
-mod facts__pari;
-mod facts__srcred;
+mod tc_left__ren;
+mod tc_nonlin__to;
+mod tc_nonlin__strpar;
+mod mutual__gen;
+mod mutual__init3;
+mod mutual__str;
+mod scc_chain__perm1;
+mod diamond__par;
+mod repeated__perm1;
+mod three_dyn__par;
+mod three_dyn__str;
+mod conds__pari;
+mod conds__srcred;
+mod conds__perm2;
+mod count_up__pari;
+mod multi_head__perm1;
+mod facts__mrt;
+mod facts__init;
 mod facts__permpar;
 mod opt_cols__mrt;
 mod opt_cols__init;
-mod same_gen__pari;
-mod same_gen__u64;
-mod not_reorderable__perm2;
-mod pre_join_rec__perm1;
-mod two_inputs__topar;
-mod two_inputs__srcred;
-mod two_inputs__permpar;
-mod ternary__par;
-mod ternary__strpar;
-mod bound_mix__str;
-mod join_chain__ren;
-mod reach__ser;
-mod self_join3__ser;
-mod lag_right__perm1;
-mod lag_left__par;
-mod lag_three__topar;
-mod lag_mid__str;
-mod multi_head_rec__ser;
-mod sp_dual__par;
-mod sp_dual__src1;
-mod sp_dual__perm1;
-mod sp_weighted__topar;
-mod set_reach__pari;
-mod set_reach__src2;
+mod same_gen__ser;
+mod same_gen__permpar;
+mod not_reorderable__topar;
+mod pre_join_rec__to;
+mod two_inputs__pari;
+mod two_inputs__src2;
+mod two_inputs__srcpar;
+mod wild__ser;
+mod ternary__ren;
+mod bound_mix__perm1;
+mod join_chain__par;
+mod join_chain__strpar;
+mod reach__topar;
+mod lag_right__par;
+mod lag_right__str;
+mod lag_three__ser;
+mod lag_mid__perm1;
+mod lag_late_delta__par;
+mod multi_head_rec__topar;
+mod sp_dual__run;
+mod sp_dual__redecl;
+mod sp_dual__ren;
+mod longest_capped__par;
+mod set_reach__topar;
+mod set_reach__srcred;
 mod bset__par;
 mod cp__topar;
 mod lat_tree__topar;
@@ -63,105 +65,108 @@ mod lat_multi_improve__to;
 mod lat_count_all__par;
 mod lat_input__to;
 mod lat_input__srcto;
-mod count_paths__pari;
-mod count_paths__src2;
-mod neg_basic__par;
-mod neg_basic__src1;
-mod neg_basic__perm1;
-mod agg_minmaxsum__pari;
-mod agg_lattice__pari;
-mod neg_rec_after__pari;
-mod agg_empty__pari;
-mod agg_const_args__ser;
-mod disj__ser;
-mod disj__src0;
+mod count_paths__ser;
+mod count_paths__src0;
+mod count_paths__runhead;
+mod neg_basic__run;
+mod neg_basic__redecl;
+mod neg_basic__ren;
+mod agg_depth__par;
+mod agg_lattice__topar;
+mod neg_rec_after__exppar;
+mod agg_empty__topar;
+mod agg_const_args__pari;
+mod disj__pari;
+mod disj__src2;
 mod disj__srcpar;
 mod disj_nested__par;
 mod pat_args__exppar;
 mod multi_head_disj__pari;
 mod mac_basic__ser;
 mod mac_basic__src0;
-mod mac_basic__srcpar;
-mod mac_nested__ser;
-mod mac_gensym_disj__exp;
-mod mac_block__par;
-mod mac_disj__exppar;
-mod stress_rel__par;
-mod rnd_core_03__ser;
-mod rnd_core_05__pari;
-mod rnd_core_08__par;
-mod rnd_core_11__ser;
-mod rnd_core_13__pari;
-mod rnd_core_16__par;
-mod rnd_core_19__ser;
-mod rnd_core_21__pari;
-mod rnd_core_24__par;
-mod rnd_core_27__ser;
-mod rnd_core_29__pari;
-mod rnd_agg_02__par;
-mod rnd_agg_05__ser;
-mod rnd_agg_07__pari;
-mod rnd_agg_10__par;
-mod rnd_agg_13__ser;
-mod rnd_agg_15__pari;
-mod rnd_prec_02__pari;
-mod rnd_prec_04__ser;
-mod rnd_prec_05__to;
-mod rnd_prec_07__par;
-mod rnd_prec_08__topar;
-mod rnd_prea_03__par;
-mod rnd_prea_06__ser;
-mod rnd_prea_08__pari;
+mod mac_basic__runhead;
+mod mac_capture__exp;
+mod mac_gensym_disj__par;
+mod mac_local_names__exppar;
+mod mac_disj__pari;
+mod stress_set__pari;
+mod rnd_core_02__par;
+mod rnd_core_05__ser;
+mod rnd_core_07__pari;
+mod rnd_core_10__par;
+mod rnd_core_13__ser;
+mod rnd_core_15__pari;
+mod rnd_core_18__par;
+mod rnd_core_21__ser;
+mod rnd_core_23__pari;
+mod rnd_core_26__par;
+mod rnd_core_29__ser;
+mod rnd_agg_01__pari;
+mod rnd_agg_04__par;
+mod rnd_agg_07__ser;
+mod rnd_agg_09__pari;
+mod rnd_agg_12__par;
+mod rnd_agg_15__ser;
+mod rnd_prec_02__ser;
+mod rnd_prec_03__to;
+mod rnd_prec_05__par;
+mod rnd_prec_06__topar;
+mod rnd_prec_08__pari;
+mod rnd_prea_02__pari;
+mod rnd_prea_05__par;
+mod rnd_prea_08__ser;
 
 fn lookup(name: &str) -> fn() -> Box<dyn Driven> {
    match name {
       "tc_right__pari" => tc_right__pari::make,
       "tc_left__run" => tc_left__run::make,
       "tc_left__redecl" => tc_left__redecl::make,
-      "tc_left__str" => tc_left__str::make,
-      "tc_nonlin__perm1" => tc_nonlin__perm1::make,
-      "mutual__par" => mutual__par::make,
-      "mutual__src1" => mutual__src1::make,
-      "mutual__perm1" => mutual__perm1::make,
-      "scc_chain__par" => scc_chain__par::make,
-      "scc_chain__str" => scc_chain__str::make,
-      "consts__pari" => consts__pari::make,
-      "repeated__str" => repeated__str::make,
-      "three_dyn__perm1" => three_dyn__perm1::make,
-      "four_dyn__par" => four_dyn__par::make,
-      "conds__src0" => conds__src0::make,
-      "conds__srcpar" => conds__srcpar::make,
-      "count_up__ser" => count_up__ser::make,
-      "multi_head__to" => multi_head__to::make,
-      "facts__pari" => facts__pari::make,
-      "facts__srcred" => facts__srcred::make,
+      "tc_left__ren" => tc_left__ren::make,
+      "tc_nonlin__to" => tc_nonlin__to::make,
+      "tc_nonlin__strpar" => tc_nonlin__strpar::make,
+      "mutual__gen" => mutual__gen::make,
+      "mutual__init3" => mutual__init3::make,
+      "mutual__str" => mutual__str::make,
+      "scc_chain__perm1" => scc_chain__perm1::make,
+      "diamond__par" => diamond__par::make,
+      "repeated__perm1" => repeated__perm1::make,
+      "three_dyn__par" => three_dyn__par::make,
+      "three_dyn__str" => three_dyn__str::make,
+      "conds__pari" => conds__pari::make,
+      "conds__srcred" => conds__srcred::make,
+      "conds__perm2" => conds__perm2::make,
+      "count_up__pari" => count_up__pari::make,
+      "multi_head__perm1" => multi_head__perm1::make,
+      "facts__mrt" => facts__mrt::make,
+      "facts__init" => facts__init::make,
       "facts__permpar" => facts__permpar::make,
       "opt_cols__mrt" => opt_cols__mrt::make,
       "opt_cols__init" => opt_cols__init::make,
-      "same_gen__pari" => same_gen__pari::make,
-      "same_gen__u64" => same_gen__u64::make,
-      "not_reorderable__perm2" => not_reorderable__perm2::make,
-      "pre_join_rec__perm1" => pre_join_rec__perm1::make,
-      "two_inputs__topar" => two_inputs__topar::make,
-      "two_inputs__srcred" => two_inputs__srcred::make,
-      "two_inputs__permpar" => two_inputs__permpar::make,
-      "ternary__par" => ternary__par::make,
-      "ternary__strpar" => ternary__strpar::make,
-      "bound_mix__str" => bound_mix__str::make,
-      "join_chain__ren" => join_chain__ren::make,
-      "reach__ser" => reach__ser::make,
-      "self_join3__ser" => self_join3__ser::make,
-      "lag_right__perm1" => lag_right__perm1::make,
-      "lag_left__par" => lag_left__par::make,
-      "lag_three__topar" => lag_three__topar::make,
-      "lag_mid__str" => lag_mid__str::make,
-      "multi_head_rec__ser" => multi_head_rec__ser::make,
-      "sp_dual__par" => sp_dual__par::make,
-      "sp_dual__src1" => sp_dual__src1::make,
-      "sp_dual__perm1" => sp_dual__perm1::make,
-      "sp_weighted__topar" => sp_weighted__topar::make,
-      "set_reach__pari" => set_reach__pari::make,
-      "set_reach__src2" => set_reach__src2::make,
+      "same_gen__ser" => same_gen__ser::make,
+      "same_gen__permpar" => same_gen__permpar::make,
+      "not_reorderable__topar" => not_reorderable__topar::make,
+      "pre_join_rec__to" => pre_join_rec__to::make,
+      "two_inputs__pari" => two_inputs__pari::make,
+      "two_inputs__src2" => two_inputs__src2::make,
+      "two_inputs__srcpar" => two_inputs__srcpar::make,
+      "wild__ser" => wild__ser::make,
+      "ternary__ren" => ternary__ren::make,
+      "bound_mix__perm1" => bound_mix__perm1::make,
+      "join_chain__par" => join_chain__par::make,
+      "join_chain__strpar" => join_chain__strpar::make,
+      "reach__topar" => reach__topar::make,
+      "lag_right__par" => lag_right__par::make,
+      "lag_right__str" => lag_right__str::make,
+      "lag_three__ser" => lag_three__ser::make,
+      "lag_mid__perm1" => lag_mid__perm1::make,
+      "lag_late_delta__par" => lag_late_delta__par::make,
+      "multi_head_rec__topar" => multi_head_rec__topar::make,
+      "sp_dual__run" => sp_dual__run::make,
+      "sp_dual__redecl" => sp_dual__redecl::make,
+      "sp_dual__ren" => sp_dual__ren::make,
+      "longest_capped__par" => longest_capped__par::make,
+      "set_reach__topar" => set_reach__topar::make,
+      "set_reach__srcred" => set_reach__srcred::make,
       "bset__par" => bset__par::make,
       "cp__topar" => cp__topar::make,
       "lat_tree__topar" => lat_tree__topar::make,
@@ -170,55 +175,56 @@ fn lookup(name: &str) -> fn() -> Box<dyn Driven> {
       "lat_count_all__par" => lat_count_all__par::make,
       "lat_input__to" => lat_input__to::make,
       "lat_input__srcto" => lat_input__srcto::make,
-      "count_paths__pari" => count_paths__pari::make,
-      "count_paths__src2" => count_paths__src2::make,
-      "neg_basic__par" => neg_basic__par::make,
-      "neg_basic__src1" => neg_basic__src1::make,
-      "neg_basic__perm1" => neg_basic__perm1::make,
-      "agg_minmaxsum__pari" => agg_minmaxsum__pari::make,
-      "agg_lattice__pari" => agg_lattice__pari::make,
-      "neg_rec_after__pari" => neg_rec_after__pari::make,
-      "agg_empty__pari" => agg_empty__pari::make,
-      "agg_const_args__ser" => agg_const_args__ser::make,
-      "disj__ser" => disj__ser::make,
-      "disj__src0" => disj__src0::make,
+      "count_paths__ser" => count_paths__ser::make,
+      "count_paths__src0" => count_paths__src0::make,
+      "count_paths__runhead" => count_paths__runhead::make,
+      "neg_basic__run" => neg_basic__run::make,
+      "neg_basic__redecl" => neg_basic__redecl::make,
+      "neg_basic__ren" => neg_basic__ren::make,
+      "agg_depth__par" => agg_depth__par::make,
+      "agg_lattice__topar" => agg_lattice__topar::make,
+      "neg_rec_after__exppar" => neg_rec_after__exppar::make,
+      "agg_empty__topar" => agg_empty__topar::make,
+      "agg_const_args__pari" => agg_const_args__pari::make,
+      "disj__pari" => disj__pari::make,
+      "disj__src2" => disj__src2::make,
       "disj__srcpar" => disj__srcpar::make,
       "disj_nested__par" => disj_nested__par::make,
       "pat_args__exppar" => pat_args__exppar::make,
       "multi_head_disj__pari" => multi_head_disj__pari::make,
       "mac_basic__ser" => mac_basic__ser::make,
       "mac_basic__src0" => mac_basic__src0::make,
-      "mac_basic__srcpar" => mac_basic__srcpar::make,
-      "mac_nested__ser" => mac_nested__ser::make,
-      "mac_gensym_disj__exp" => mac_gensym_disj__exp::make,
-      "mac_block__par" => mac_block__par::make,
-      "mac_disj__exppar" => mac_disj__exppar::make,
-      "stress_rel__par" => stress_rel__par::make,
-      "rnd_core_03__ser" => rnd_core_03__ser::make,
-      "rnd_core_05__pari" => rnd_core_05__pari::make,
-      "rnd_core_08__par" => rnd_core_08__par::make,
-      "rnd_core_11__ser" => rnd_core_11__ser::make,
-      "rnd_core_13__pari" => rnd_core_13__pari::make,
-      "rnd_core_16__par" => rnd_core_16__par::make,
-      "rnd_core_19__ser" => rnd_core_19__ser::make,
-      "rnd_core_21__pari" => rnd_core_21__pari::make,
-      "rnd_core_24__par" => rnd_core_24__par::make,
-      "rnd_core_27__ser" => rnd_core_27__ser::make,
-      "rnd_core_29__pari" => rnd_core_29__pari::make,
-      "rnd_agg_02__par" => rnd_agg_02__par::make,
-      "rnd_agg_05__ser" => rnd_agg_05__ser::make,
-      "rnd_agg_07__pari" => rnd_agg_07__pari::make,
-      "rnd_agg_10__par" => rnd_agg_10__par::make,
-      "rnd_agg_13__ser" => rnd_agg_13__ser::make,
-      "rnd_agg_15__pari" => rnd_agg_15__pari::make,
-      "rnd_prec_02__pari" => rnd_prec_02__pari::make,
-      "rnd_prec_04__ser" => rnd_prec_04__ser::make,
-      "rnd_prec_05__to" => rnd_prec_05__to::make,
-      "rnd_prec_07__par" => rnd_prec_07__par::make,
-      "rnd_prec_08__topar" => rnd_prec_08__topar::make,
-      "rnd_prea_03__par" => rnd_prea_03__par::make,
-      "rnd_prea_06__ser" => rnd_prea_06__ser::make,
-      "rnd_prea_08__pari" => rnd_prea_08__pari::make,
+      "mac_basic__runhead" => mac_basic__runhead::make,
+      "mac_capture__exp" => mac_capture__exp::make,
+      "mac_gensym_disj__par" => mac_gensym_disj__par::make,
+      "mac_local_names__exppar" => mac_local_names__exppar::make,
+      "mac_disj__pari" => mac_disj__pari::make,
+      "stress_set__pari" => stress_set__pari::make,
+      "rnd_core_02__par" => rnd_core_02__par::make,
+      "rnd_core_05__ser" => rnd_core_05__ser::make,
+      "rnd_core_07__pari" => rnd_core_07__pari::make,
+      "rnd_core_10__par" => rnd_core_10__par::make,
+      "rnd_core_13__ser" => rnd_core_13__ser::make,
+      "rnd_core_15__pari" => rnd_core_15__pari::make,
+      "rnd_core_18__par" => rnd_core_18__par::make,
+      "rnd_core_21__ser" => rnd_core_21__ser::make,
+      "rnd_core_23__pari" => rnd_core_23__pari::make,
+      "rnd_core_26__par" => rnd_core_26__par::make,
+      "rnd_core_29__ser" => rnd_core_29__ser::make,
+      "rnd_agg_01__pari" => rnd_agg_01__pari::make,
+      "rnd_agg_04__par" => rnd_agg_04__par::make,
+      "rnd_agg_07__ser" => rnd_agg_07__ser::make,
+      "rnd_agg_09__pari" => rnd_agg_09__pari::make,
+      "rnd_agg_12__par" => rnd_agg_12__par::make,
+      "rnd_agg_15__ser" => rnd_agg_15__ser::make,
+      "rnd_prec_02__ser" => rnd_prec_02__ser::make,
+      "rnd_prec_03__to" => rnd_prec_03__to::make,
+      "rnd_prec_05__par" => rnd_prec_05__par::make,
+      "rnd_prec_06__topar" => rnd_prec_06__topar::make,
+      "rnd_prec_08__pari" => rnd_prec_08__pari::make,
+      "rnd_prea_02__pari" => rnd_prea_02__pari::make,
+      "rnd_prea_05__par" => rnd_prea_05__par::make,
+      "rnd_prea_08__ser" => rnd_prea_08__ser::make,
       _ => panic!("no such program variant in this shard: {}", name),
    }
 }
